@@ -108,7 +108,7 @@ def validate(ctx, comp, sc, tso, runs, workdir, tag):
     shutil.copy(v1.tlc.log, os.path.join(d, "tlc.log"))
     k = v1.maxl
     what = v1.violation
-    meta = {"scenario": sc["name"], "tso": tso, "seed": seed, "driver": comp["driver"], "trace_module": mod, "first_unmatched_event_index": k,
+    meta = {"scenario": sc["name"], "tso": tso, "seed": seed, "driver": comp["driver"], "driver_name": comp.get("drvname", ""), "component": comp.get("name", ""), "trace_module": mod, "first_unmatched_event_index": k,
             "first_unmatched_event": one[k - 1] if 0 < k <= len(one) else None, "context": one[max(0, k - 6):k]}
     json.dump(meta, open(os.path.join(d, "meta.json"), "w"), indent=1)
     shutil.copy(os.path.join(workdir, "prog_%s.txt" % sc["name"]), os.path.join(d, "prog.txt"))
@@ -131,6 +131,7 @@ def report_failures(ctx, comp, fails):
         d = ctx.viol_dir()
         if os.path.exists(f["trace"]):
             shutil.move(f["trace"], os.path.join(d, "trace.ndjson"))
+        f.setdefault("driver_name", comp.get("drvname", "")); f.setdefault("component", comp.get("name", ""))
         json.dump(f, open(os.path.join(d, "meta.json"), "w"), indent=1)
         pf = os.path.join(os.path.dirname(f["trace"]), "prog_%s.txt" % f["scenario"])
         if os.path.exists(pf):
